@@ -128,15 +128,16 @@ Definition class_D48 (conf : list dir) (tbl : matchtable) (q : request) : bool :
   | None => false
   end.
 
-(* class of finding D51: an HTTPRoute and a GRPCRoute of one namespace and name that both have a rule of the same index with several
-   backends: the two backend groups get one name (group_<ns>__<name>_rule<i>) and one split_clients block serves both *)
+(* class of finding D51: an HTTPRoute and a GRPCRoute of one namespace and name that both have a rule of the same index, one of them
+   with several backends: the two backend groups get one name (group_<ns>__<name>_rule<i>) and only one of them is kept - one
+   split_clients block serves both, or (the kept one has at most one backend) the variable the other proxies to is not defined *)
 Definition known_D51 := 51.
 Definition class_D51 (cs : cluster) : bool :=
   existsb (fun r1 => existsb (fun r2 =>
     negb (match rt_kind r1, rt_kind r2 with KHTTP, KHTTP | KGRPC, KGRPC => true | _, _ => false end) &&
     seqb (rt_ns r1) (rt_ns r2) && seqb (rt_name r1) (rt_name r2) &&
     existsb (fun ir => match nth_error (rt_rules r2) (fst ir) with
-                       | Some ru2 => Nat.ltb 1 (List.length (r_backends (snd ir))) && Nat.ltb 1 (List.length (r_backends ru2))
+                       | Some ru2 => Nat.ltb 1 (List.length (r_backends (snd ir))) || Nat.ltb 1 (List.length (r_backends ru2))
                        | None => false
                        end) (index_from 0 (rt_rules r1))) (c_routes cs)) (c_routes cs).
 
